@@ -518,6 +518,8 @@ class Obligation:
             d['detail'] = self.detail
         if self.model:
             d['model'] = self.model
+        if getattr(self, 'second', None):
+            d['cvc5'] = self.second
         return d
 
 
@@ -705,6 +707,14 @@ class PathRunner:
                     model = None
         ob = Obligation(name, kind, verdict, time.time() - t0, backend, line, detail, model, self.prefix())
         ob.pc_size = len(self.pc)
+        ob.second = None
+        every = getattr(self.budget, 'second_opinion_every', 0)
+        if every and verdict == 'discharged' and backend == 'z3' and not isinstance(claim, bool):
+            self._n_disch = getattr(self, '_n_disch', 0) + 1
+            if self._n_disch % every == 0:
+                # independent re-check of a sample of discharged obligations with cvc5 on the SMT-LIB text
+                from . import solvers
+                ob.second = solvers.cvc5_check(self._smt2(claim), 5000)
         if verdict != 'discharged':
             ob.smt2 = self._smt2(claim)
         self.obligations[key] = ob
